@@ -26,6 +26,7 @@ type Graph struct {
 	block []*cfg.Block
 	Entry int
 	Exits []int // vertices of return statements (including the synthetic fall-off return)
+	lockCls []map[string]bool
 	// Dead-end vertices: end vertices of live blocks with no successors and no return (panic etc).
 	NoRet []int
 }
@@ -364,6 +365,16 @@ func (f *Func) lockOpOf(call *ast.CallExpr) (lockOp, bool) {
 // *before* the vertex's node executes (must-analysis; meet = intersection). Deferred unlocks do not
 // release before exit. Read locks are recorded as key+"(R)".
 func (g *Graph) LockSets() []map[string]bool {
+	return g.LockSetsBy(func(_ *ast.CallExpr, op lockOp) string {
+		if op.read {
+			return op.key + "(R)"
+		}
+		return op.key
+	})
+}
+
+// LockSetsBy is LockSets with a caller-chosen key per lock operation ("" = ignore the operation).
+func (g *Graph) LockSetsBy(keyOf func(*ast.CallExpr, lockOp) string) []map[string]bool {
 	in := make([]map[string]bool, g.N) // nil = top (unvisited)
 	in[g.Entry] = map[string]bool{}
 	work := []int{g.Entry}
@@ -398,9 +409,9 @@ func (g *Graph) LockSets() []map[string]bool {
 			if !ok {
 				return
 			}
-			k := op.key
-			if op.read {
-				k += "(R)"
+			k := keyOf(call, op)
+			if k == "" {
+				return
 			}
 			cp()
 			if op.acquire {
